@@ -418,6 +418,10 @@ Proof.
   eapply noninterference; eassumption.
 Qed.
 
+(* F-C50-1: without a colon the scheme "rest" still dispatches to rest.StripPassword, whose s[:5] panics *)
+Theorem no_panic_refuted : exists loc post, strip_location loc post = RPanic.
+Proof. exists rest_scheme, None. vm_compute. reflexivity. Qed.
+
 (* ------------------------------------------------------------------ non-vacuity *)
 From Coq Require Import String. Open Scope string_scope.
 Example c50_nonvacuous :
